@@ -34,7 +34,12 @@ class Untranslatable(Exception):
     pass
 
 
-INT, BOOL, CHUNK, STR, RES = 'Int', 'Bool', 'Sk.Py.Chunk', 'Str', 'Res'
+INT, BOOL, CHUNK, STR, RES = 'Int', 'Bool', 'Sk.Py.Chunk', 'Str', 'Sk.Tok'
+TOK = RES
+LLINE = 'Sk.LLine'
+OPTINT = 'Option Int'          # an int or None
+OPTDT = 'Option  Int'          # a datetime (as seconds) or None: every non-None value is truthy
+                               # (two blanks: a distinct tag for the translator, same Lean type)
 
 
 class Ctx:
@@ -89,6 +94,9 @@ def expr(cx, e):
         if e.id in cx.types:
             return lname(e.id), cx.types[e.id]
         raise Untranslatable(f'unknown name {e.id}')
+    if isinstance(e, ast.Attribute) and isinstance(e.value, ast.Name) and \
+            cx.types.get(e.value.id) == TOK and e.attr == 'offset':
+        return f'(Sk.Tok.off {lname(e.value.id)})', INT
     if isinstance(e, ast.Attribute) and isinstance(e.value, ast.Name) and e.value.id == 'self':
         nm = 'self_' + e.attr
         if nm in cx.types:
@@ -160,9 +168,12 @@ def prop(cx, e):
         left = e.left
         for op, right in zip(e.ops, e.comparators):
             a, ta = expr(cx, left)
-            b, tb = expr(cx, right)
             if isinstance(op, (ast.Is, ast.IsNot)):
+                if ta in (OPTINT, OPTDT) and isinstance(right, ast.Constant) and \
+                        right.value is None and len(e.ops) == 1:
+                    return f"({a} {'=' if isinstance(op, ast.Is) else '≠'} none)"
                 raise Untranslatable(f'identity test in {src}')
+            b, tb = expr(cx, right)
             if ta != tb or ta not in (INT, BOOL):
                 raise Untranslatable(f'comparison of {ta} with {tb} in {src}')
             o = {ast.Lt: '<', ast.LtE: '≤', ast.Gt: '>', ast.GtE: '≥', ast.Eq: '=',
@@ -181,6 +192,10 @@ def prop(cx, e):
         return f'({t} ≠ 0)'
     if ty == CHUNK:
         return f'({t}.len ≠ 0)'
+    if ty == OPTDT:
+        return f'({t} ≠ none)'
+    if ty == OPTINT:
+        return f'({t} ≠ none ∧ {t} ≠ some 0)'
     raise Untranslatable(f'truth value of {ty} in {src}')
 
 
@@ -299,6 +314,11 @@ def block(cx, stmts, k, loop=None):
             if not isinstance(s.target, ast.Name):
                 # self.x += e: read the local self_x
                 val = ast.BinOp(left=s.target, op=s.op, right=s.value)
+        if unparse(s.targets[0] if isinstance(s, ast.Assign) else s.target) in \
+                cx.spec.get('ignore_attrs', ()):
+            return after()                      # a diagnostic counter outside the fragment
+        if isinstance(val, ast.Call) and callee_of(cx, val) is not None:
+            return call_bind(cx, nm, val, after)
         # file.read(n) as the whole right-hand side: reads at _pos and advances it
         if isinstance(val, ast.Call) and unparse(val.func) == 'self.file.read' and len(val.args) == 1:
             if '_pos' not in cx.types:
@@ -319,6 +339,9 @@ def block(cx, stmts, k, loop=None):
         t, ty = expr(cx, s.value)
         if ty != cx.ret:
             raise Untranslatable(f'return of {ty} where {cx.ret} is declared: {unparse(s)}')
+        st = cx.spec.get('state_out')
+        if st:
+            return 'Sk.Py.Res.ret (' + ', '.join([t] + [lname(v) for v in st]) + ')'
         return f'Sk.Py.Res.ret {t}'
     if isinstance(s, ast.Raise):
         if s.exc is None:
@@ -333,7 +356,35 @@ def block(cx, stmts, k, loop=None):
         if loop is None:
             raise Untranslatable('continue outside a loop')
         return loop[0]()
+    if isinstance(s, ast.Assert):
+        return f'if {prop(cx, s.test)} then\n{ind(after())}\nelse\n  Sk.Py.Res.exc "AssertionError"'
     if isinstance(s, ast.If):
+        opt = optional_test(cx, s.test)
+        if opt is not None:
+            # `if x is None` / `if not x` / `if x` on an optional: a match that REFINES the type
+            # of x in the branch where it is known not to be None
+            nm, none_branch_is_body, zero_is_falsy = opt
+            saved_t, saved_o = dict(cx.types), list(cx.order)
+            body_none, body_some = (s.body, s.orelse) if none_branch_is_body else (s.orelse, s.body)
+            t_none = block(cx, body_none, after, loop)
+            cx.types, cx.order = dict(saved_t), list(saved_o)
+            cx.types[nm] = INT
+            t_some = block(cx, body_some, after, loop)
+            if zero_is_falsy:
+                # truthiness of an int-or-None: 0 goes with None
+                cx.types, cx.order = dict(saved_t), list(saved_o)
+                cx.types[nm] = INT
+                t_zero = block(cx, body_none, after, loop)
+                t_some = f'if {lname(nm)} = 0 then\n{ind(t_zero)}\nelse\n{ind(t_some)}'
+            cx.types, cx.order = saved_t, saved_o
+            return (f'match {lname(nm)} with\n| none =>\n{ind(t_none)}\n'
+                    f'| some {lname(nm)} =>\n{ind(t_some)}')
+        cal = callee_of(cx, s.test)
+        if cal is not None:
+            # `if self.f(args):` with f itself translated
+            tmp = ast.Name(id='_c%d' % (len(cx.order) + 1))
+            return call_bind(cx, tmp.id, s.test, lambda: block(
+                cx, [ast.If(test=tmp, body=s.body, orelse=s.orelse)] + rest, k, loop))
         c = prop(cx, s.test)
         straight = not has_control(s.body) and not has_control(s.orelse)
         if straight:
@@ -405,12 +456,72 @@ def block(cx, stmts, k, loop=None):
             inner = f'if {c} then\n{ind(body)}\nelse\n{ind(leave())}'
         cx.types, cx.order = dict(entry_types), list(entry_order)
         cx.aux.append(
-            f"def {name} {cx.spec['ctx']} {sig} : Nat → Sk.Py.Res {lean_ret(cx)}\n"
+            f"def {name} {cx.spec['ctx']} {sig} : Nat → Sk.Py.Res ({lean_ret(cx)})\n"
             f"  | 0 => Sk.Py.Res.diverge\n"
             f"  | fuel + 1 =>\n{ind(inner, 4)}\n")
         return (f"{name} {cx.spec['ctx_args']} {' '.join(lname(v) for v in vars_)} fuel"
                 .replace('  ', ' '))
     raise Untranslatable(f'statement {unparse(s)}')
+
+
+def optional_test(cx, test):
+    """ -> (name, the body is the None branch?, does 0 count as falsy?) for a test that asks
+    whether an optional local is None """
+    neg = False
+    t = test
+    if isinstance(t, ast.UnaryOp) and isinstance(t.op, ast.Not):
+        neg, t = True, t.operand
+    if isinstance(t, ast.Name) and cx.types.get(t.id) in (OPTINT, OPTDT):
+        return t.id, neg, cx.types[t.id] == OPTINT
+    if isinstance(t, ast.Compare) and len(t.ops) == 1 and isinstance(t.left, ast.Name) and \
+            cx.types.get(t.left.id) in (OPTINT, OPTDT) and \
+            isinstance(t.comparators[0], ast.Constant) and t.comparators[0].value is None and \
+            isinstance(t.ops[0], (ast.Is, ast.IsNot)):
+        is_none = isinstance(t.ops[0], ast.Is)
+        return t.left.id, (is_none != neg), False
+    return None
+
+
+def callee_of(cx, e):
+    if isinstance(e, ast.Call):
+        return cx.spec.get('callees', {}).get(unparse(e.func))
+    return None
+
+
+def call_bind(cx, nm, e, cont):
+    """ `nm = self.f(args)` where f is itself a translated function: its outcome is bound, an
+    exception or divergence of the callee is that of the caller.  The file position after the
+    call is unknown: a read without a new seek is outside the fragment. """
+    cal = callee_of(cx, e)
+    spec2 = next(sp for sp in FUNCS if sp['name'] == cal)
+    if e.keywords:
+        raise Untranslatable(f'keyword arguments in {unparse(e)}')
+    want = [p for p in spec2['params'] if p[0] != '_pos']
+    if len(e.args) != len(want):
+        raise Untranslatable(f'{unparse(e)}: {len(want)} arguments expected')
+    args = []
+    for a, (pn, pt) in zip(e.args, want):
+        t, ty = expr(cx, a)
+        if ty == INT and pt in (OPTINT, OPTDT):
+            t = f'(some {t})'
+        elif ty != pt:
+            raise Untranslatable(f'{unparse(e)}: argument {pn} is {ty}, {pt} expected')
+        args.append(t)
+    if any(p[0] == '_pos' for p in spec2['params']):
+        args.append(lname('_pos') if '_pos' in cx.types else '(0 : Int)')
+        cx.types.pop('_pos', None)
+        if '_pos' in cx.order:
+            cx.order.remove('_pos')
+    if spec2['fuel']:
+        if not cx.spec['fuel']:
+            raise Untranslatable(f'{unparse(e)}: the callee has loops, the caller no fuel')
+        args.append('fuel')
+    cx.define(nm, spec2['ret'])
+    body = cont()
+    return (f"match {cal} {spec2['ctx_args']} {' '.join(args)} with\n".replace('  ', ' ') +
+            f"| Sk.Py.Res.ret {lname(nm)} =>\n{ind(body)}\n"
+            f"| Sk.Py.Res.exc _n => Sk.Py.Res.exc _n\n"
+            f"| Sk.Py.Res.diverge => Sk.Py.Res.diverge")
 
 
 def has_file_ops(stmts):
@@ -431,6 +542,10 @@ def lean_ret(cx):
 
 def _search_state(cx, e):
     kw = kwargs(e)
+    for name, a in zip(('status', 'offset'), e.args):
+        kw[name] = a
+    if set(kw) != {'status', 'offset'}:
+        raise Untranslatable(f'SearchState form {unparse(e)}')
     st = unparse(kw['status'])
     t, ty = expr(cx, kw['offset'])
     need(ty, INT, unparse(e))
@@ -439,6 +554,18 @@ def _search_state(cx, e):
     if st == 'FindTokenStatus.REACHED_EOF':
         return f'(Sk.Tok.edge {t})', RES
     raise Untranslatable(f'status {st}')
+
+
+def _logline(cx, e):
+    kw = kwargs(e)
+    if e.args or set(kw) != {'file', 'constraint', 'line_start_lf', 'line_end_lf'} or \
+            unparse(kw['file']) != 'self.file' or unparse(kw['constraint']) != 'self.constraint':
+        raise Untranslatable(f'LogLine form {unparse(e)}')
+    a, ta = expr(cx, kw['line_start_lf'])
+    b, tb = expr(cx, kw['line_end_lf'])
+    need(ta, TOK, unparse(e))
+    need(tb, TOK, unparse(e))
+    return f'(Sk.LLine.mk {a} {b})', LLINE
 
 
 def _timedelta(cx, e):
@@ -479,6 +606,29 @@ FUNCS = [
          consts={'os.cpu_count()': ('cpu_count', INT), 'len(self.files)': ('nfiles', INT),
                  'self.max_parallel_tasks': ('self_max_parallel_tasks', INT)},
          fuel=False),
+    dict(name='try_find_line', file='constraints.py', cls='LogFileDateSinceSeeker',
+         func='try_find_line',
+         params=[('epicenter', INT), ('slf_off', OPTINT), ('elf_off', OPTINT), ('_pos', INT)],
+         ret=LLINE, lean_ret='Sk.LLine', ctx='(K : Sk.SeekK) (F : Sk.FileV)', ctx_args='K F',
+         consts=SEEK_CONSTS,
+         callees={'self.find_token': 'find_token',
+                  'self.find_token_reverse': 'find_token_reverse'},
+         calls={'SearchState': _search_state, 'LogLine': _logline},
+         ignore_attrs=('self.lines_searched',), fuel=True),
+    dict(name='line_date_is_valid', file='constraints.py', cls='BinarySeekSearchBase',
+         func='_line_date_is_valid', params=[('extracted_datetime', OPTDT)], ret=BOOL,
+         lean_ret='Bool', ctx='(since : Int)', ctx_args='since',
+         consts={'self.since_date': ('since', INT)}, fuel=False),
+    # apply_to_line: the timestamp extracted from the line is the parameter `ts` (oracle); the two
+    # counters are threaded through and returned with the outcome
+    dict(name='apply_to_line', file='constraints.py', cls='SearchConstraintSearchSince',
+         func='apply_to_line', params=[('self__line_pass', INT), ('self__line_fail', INT)],
+         ret=BOOL, lean_ret='Bool × Int × Int', ctx='(since : Int) (ts : Option Int)',
+         ctx_args='since ts',
+         consts={'self._is_valid': ('true', BOOL),
+                 'self.extracted_datetime(line)': ('ts', OPTDT)},
+         callees={'self._line_date_is_valid': 'line_date_is_valid'},
+         state_out=['self__line_pass', 'self__line_fail'], py_args=['line'], fuel=False),
     # the part of SearchConstraintSearchSince.__init__ that fixes the window, followed by
     # since_date: what is subtracted from current_date, in seconds
     dict(name='since_window', file='constraints.py', cls='SearchConstraintSearchSince',
@@ -504,6 +654,15 @@ def translate_one(repo, spec):
         tree = ast.parse(f.read())
     fn = find_func(tree, spec['cls'], spec['func'])
     cx = Ctx(spec)
+    have = [a.arg for a in fn.args.args + fn.args.kwonlyargs]
+    for pn, _ in spec['params']:
+        if pn != '_pos' and not pn.startswith('self_') and pn not in have:
+            raise Untranslatable(f"{spec['func']} has no parameter {pn} (it has {have})")
+    if not spec.get('only_targets'):
+        named = spec.get('py_args') or [pn for pn, _ in spec['params']
+                                         if pn != '_pos' and not pn.startswith('self_')]
+        if have[1:] != named:
+            raise Untranslatable(f"{spec['func']} takes {have[1:]}, the bridge expects {named}")
     body = list(fn.body)
     if spec.get('only_targets'):
         # keep the statements that assign one of the named attributes (whole if-statements
@@ -540,7 +699,7 @@ def translate_one(repo, spec):
 
     text = block(cx, body, fallthrough)
     params = ' '.join(f'({lname(p)} : {t})' for p, t in spec['params'])
-    head = (f"def {spec['name']} {spec['ctx']} {params}{fuel} : Sk.Py.Res {spec['lean_ret']} :=\n"
+    head = (f"def {spec['name']} {spec['ctx']} {params}{fuel} : Sk.Py.Res ({spec['lean_ret']}) :=\n"
             .replace('  ', ' '))
     return ''.join(a + '\n' for a in cx.aux) + head + ind(text) + '\n'
 
